@@ -5,6 +5,7 @@ import (
 	"fmt"
 	"os"
 	"sort"
+	"strconv"
 	"strings"
 )
 
@@ -103,7 +104,7 @@ func (w *World) Hash() uint64 {
 
 // Canon is a compact human-readable rendering used in evidence samples.
 func (w *World) Canon() map[string]interface{} {
-	m := map[string]interface{}{"prop": w.Prop, "seed": w.Seed}
+	m := map[string]interface{}{"prop": w.Prop, "seed": strconv.FormatUint(w.Seed, 10)}
 	if w.Prog != nil {
 		m["src"] = w.Prog.Src()
 	}
